@@ -438,6 +438,11 @@ func CheckFile(m Model) string {
 					p("\t\tGet: func(st capnp.Struct) (string, error) { return %s.%s() },", E, F)
 					p("\t\tHas: func(st capnp.Struct) bool { return %s.Has%s() },", E, F)
 					p("\t\tHasDefault: true, Default: %q}, %s)", f.DefText, which)
+					// the []byte form of the getter (no discriminant check is generated for it)
+					p("\trt.CheckPtr(t, %s, rt.PtrOps{Lenient: true,", strings.Replace(spec, name, name+"/Bytes", 1))
+					p("\t\tSet: func(st capnp.Struct) (string, error) { return %q, %s.Set%s(%q) },", "txt-"+name, E, F, "txt-"+name)
+					p("\t\tGet: func(st capnp.Struct) (string, error) { b, err := %s.%sBytes(); return string(b), err },", E, F)
+					p("\t\tHasDefault: true, Default: %q}, %s)", f.DefText, which)
 					if f.HasDef && f.DefText != "" {
 						// the empty string is a value of its own: it must not read back as the schema's default
 						p("\trt.CheckPtr(t, %s, rt.PtrOps{", strings.Replace(spec, name, name+"/empty", 1))
@@ -518,8 +523,36 @@ func CheckFile(m Model) string {
 					p("\t\tHas: func(st capnp.Struct) bool { return %s.Has%s() },", E, F)
 					p("\t\tHasDefault: true, Default: \"null\"}, %s)", which)
 					nullStore = fmt.Sprintf("%s.Set%s(%s{})", E, F, it)
+					{
+						FE := reachFuture(i)
+						p("\t{")
+						p("\t\t_, seg, _ := capnp.NewMessage(capnp.SingleSegment(nil))")
+						p("\t\tr, err := NewRoot%s(seg); if err != nil { t.Fatal(err) }", root.Name)
+						p("\t\tst := r.Struct")
+						p("\t\tfut := capnp.ImmediateAnswer(capnp.Method{}, st).Future()")
+						p("\t\tc := %s.%s(); if c.Client.IsValid() { rt.Fail(t, \"future-slot\", \"%s: the _Future accessor yields a capability although pointer slot %d is null\") }", FE, F, name, f.Off)
+						p("\t\tcl := capnp.ErrorClient(errCap)")
+						p("\t\terr = %s.Set%s(%s{Client: cl}); if err != nil { t.Fatal(err) }", E, F, it)
+						p("\t\tc = %s.%s(); if !c.Client.IsValid() || !c.Client.IsSame(cl) { rt.Fail(t, \"future-slot\", \"%s: the _Future accessor does not yield the capability stored in pointer slot %d\") }", FE, F, name, f.Off)
+						p("\t\trt.Checks += 2")
+						p("\t}")
+					}
 				case "anyptr":
 					nullStore = fmt.Sprintf("%s.Set%s(capnp.Ptr{})", E, F)
+					{
+						FE := reachFuture(i)
+						p("\t{")
+						p("\t\t_, seg, _ := capnp.NewMessage(capnp.SingleSegment(nil))")
+						p("\t\tr, err := NewRoot%s(seg); if err != nil { t.Fatal(err) }", root.Name)
+						p("\t\tst := r.Struct")
+						p("\t\tfut := capnp.ImmediateAnswer(capnp.Method{}, st).Future()")
+						p("\t\tc, err := %s.%s().Struct(); if err != nil || c.IsValid() { rt.Fail(t, \"future-slot\", \"%s: the _Future accessor yields something although pointer slot %d is null (err %%v)\", err) }", FE, F, name, f.Off)
+						p("\t\tn, err := capnp.NewStruct(seg, capnp.ObjectSize{DataSize: 8}); if err != nil { t.Fatal(err) }")
+						p("\t\terr = %s.Set%s(n.ToPtr()); if err != nil { t.Fatal(err) }", E, F)
+						p("\t\tc, err = %s.%s().Struct(); if err != nil || !capnp.SamePtr(c.ToPtr(), n.ToPtr()) { rt.Fail(t, \"future-slot\", \"%s: the _Future accessor does not yield what is stored in pointer slot %d (err %%v)\", err) }", FE, F, name, f.Off)
+						p("\t\trt.Checks += 2")
+						p("\t}")
+					}
 					p("\trt.CheckPtr(t, %s, rt.PtrOps{", spec)
 					p("\t\tSet: func(st capnp.Struct) (string, error) { x, err := capnp.NewText(st.Segment(), \"any\"); if err != nil { return \"\", err }; return \"any\", %s.Set%s(x.ToPtr()) },", E, F)
 					p("\t\tGet: func(st capnp.Struct) (string, error) { x, err := %s.%s(); return x.Text(), err },", E, F)
